@@ -39,11 +39,40 @@ def var_on_paths(results, name):
     return out
 
 
+def coord_dtype_rules(run, db):
+    nvec = 0
+    for qual in ('prysm.psf.centroid', 'prysm.psf.encircled_energy', 'prysm.coordinates.make_xy_grid', 'prysm.fttools.fftrange', 'prysm.otf.mtf_from_psf', 'prysm.otf.ptf_from_psf',
+                 'prysm.otf.otf_from_psf', 'prysm._richdata.RichData.x', 'prysm._richdata.RichData.y'):
+        try:
+            fi_ = db.func(qual)
+        except Exception:
+            continue
+        nvec += 1
+        coord_names = set()
+        bad_casts = []
+        for n_ in walk_no_nested(fi_.node):
+            if isinstance(n_, ast.Assign) and any(isinstance(c_, ast.Call) and ast.unparse(c_.func).split('.')[-1] in ('fftrange', 'arange', 'make_xy_grid', 'fftfreq') for c_ in ast.walk(n_.value)):
+                for t_ in n_.targets:
+                    coord_names |= {x_.id for x_ in ast.walk(t_) if isinstance(x_, ast.Name)}
+        for n_ in ast.walk(fi_.node):
+            if isinstance(n_, ast.Call) and isinstance(n_.func, ast.Attribute) and n_.func.attr == 'astype' and n_.args:
+                recv = n_.func.value
+                is_coord = any(isinstance(c_, ast.Call) and ast.unparse(c_.func).split('.')[-1] in ('fftrange', 'arange', 'fftfreq') for c_ in ast.walk(recv)) or \
+                    (isinstance(recv, ast.Name) and recv.id in coord_names)
+                from_data = any(isinstance(x_, ast.Attribute) and x_.attr == 'dtype' and isinstance(x_.value, ast.Name) and x_.value.id in fi_.params for x_ in ast.walk(n_.args[0]))
+                if is_coord and from_data:
+                    bad_casts.append(n_)
+        run.check(not bad_casts, 'C04.range', fi_.qual, 'coordinate dtype', 'signed coordinate vectors (zero at n//2, negative before it) are not cast to a dtype taken from the data',
+                  '`%s` casts an origin-referenced index vector to the dtype of the data: for unsigned-integer images the negative half wraps around and the reported position is wrong'
+                  % (ast.unparse(bad_casts[0]) if bad_casts else ''), fi_.loc(bad_casts[0]) if bad_casts else fi_.loc())
+
+
 def check(run, db, tier):
     run.trust('INDEX domain: lengths n=2a+p, //2 / ceil(./2) / floor(./2) exact on integer-affine forms per parity class (sa/domains/index.py)',
               'origin convention: the origin of an axis of length n is index n//2 (prysm/fttools.py fftrange docstring and property C04)')
     run.assume('array lengths are positive integers; every parity class of every length involved is enumerated, so all n are covered')
     run.rule('C04.range', 'fftrange(n) starts at -(n//2) and has n samples; make_xy_grid axes are fftrange(s)*dx for axis order (row, col)')
+    run.group(coord_dtype_rules, run, db)
     run.rule('C04.pad', 'pad2d places the input origin n//2 on the output origin N//2 for every parity class (both code paths); after-pad completes the shape')
     run.rule('C04.crop', 'crop_center takes [n//2 - o//2, +o) on each axis; crop offset == pad offset for the swapped pair')
     run.rule('C04.centre', 'every centre/reference/DC index equals s//2 of the axis it indexes, for odd and even s')
